@@ -39,9 +39,63 @@ def _accepted(version, text):
         return False
 
 
+ALPHABET = {
+    "common": [
+        "1;255;0;0;17;2.0", "2;255;0;0;18;1.5", "1;0;0;0;6;temp", "1;0;0;0;3;again", "1;0;1;0;0;21.5", "1;0;1;0;0;22",
+        "1;0;2;0;0;", "1;255;3;0;0;55", "1;255;3;0;11;sketch", "255;255;3;0;3;", "0;255;3;0;14;ready", "1;5;1;0;2;1",
+        "1;0;1;0;2;7", "1;255;0;0;17;1.3",
+    ],
+}
+
+
+def exhaustive_phase(run, tier):
+    """Thorough tier: ALL histories of length <= 4 over a 14-letter alphabet of representative lines
+    (plus the version's wake-up announcement for 2.x), for every version and both flavours."""
+    if tier != "thorough":
+        return
+    import itertools
+
+    from vf import common
+    from vf.ref import tables as T
+
+    jobs = []
+    for version in T.VERSIONS:
+        letters = list(ALPHABET["common"])
+        wake = T.wake_sub(version)
+        if wake is not None:
+            letters[-1] = f"1;255;3;0;{wake};9"
+        for first in letters:
+            jobs.append((version, first, letters))
+    for stats in common.pool_map(_exhaustive_worker, jobs):
+        run.stats.merge(stats)
+    run.extra["exhaustive_length_le_4"] = True
+
+
+def _exhaustive_worker(args):
+    import itertools
+
+    from vf import common, lockstep
+    from vf.common import Violation
+
+    version, first, letters = args
+    common.setup_path()
+    stats = common.Stats()
+    for length in (1, 2, 3, 4):
+        for rest in itertools.product(letters, repeat=length - 1):
+            for flavour in ("sync", "async") if length == 4 else ("sync",):
+                case = {"version": version, "flavour": flavour, "ops": [{"op": "line", "text": t} for t in (first,) + rest]}
+                try:
+                    lockstep.run_history(case, {"state", "callback"}, stats)
+                except Violation as v:
+                    if len(stats.violations) < 5:
+                        stats.violation(v.clause, v.case, v.detail)
+                stats.case(None, labels=("exhaustive-len<=4",))
+    return stats
+
+
 CHECK = HistoryCheck(
     "C04", {"state", "callback"}, RULE, dict(max_ops=30, op_weights=dict(save=3)), nontrivial,
-    quick=(16, 160), thorough=(16, 2500),
+    quick=(16, 160), thorough=(16, 2500), extra_phase=exhaustive_phase,
     assumptions=[
         "reference model vf/ref/model.py is the oracle; frames whose validity the statement does not pin are excluded by construction",
         "callback exactness: exactly once when the projection changed, at most once otherwise, zero for rejected lines",
